@@ -474,7 +474,15 @@ impl<'a, T: QueryToRelationTranslator + Copy + Clone> VisitedQueryRelations<'a, 
                             let ident = idents.last().unwrap();
                             lower_case_unquoted_ident(ident)
                         }
-                        expr => namer::name_from_content(FIELD, &expr),
+                        expr => {
+                            let name = namer::name_from_content(FIELD, &expr);
+                            // The same unaliased expression can be selected several times: every occurrence is a column
+                            if named_exprs.iter().any(|(n, _)| n == &name) {
+                                namer::name_from_content(FIELD, &(expr, named_exprs.len()))
+                            } else {
+                                name
+                            }
+                        }
                     };
                     let implicit_alias_ident = Identifier::from_name(implicit_alias.clone());
                     if let Some(name) = columns.get(&implicit_alias_ident) {
